@@ -75,7 +75,7 @@ Fixpoint go_card_loop (T : tables) (trips : list text) (digits : text) (i : Z) (
         match d10 with
         | 0 => if negb (Nat.eqb d 0) then (false, words ++ [tnth one d]) else (true, words)
         | 1 => (false, words ++ [tnth teen d])
-        | _ => (false, words ++ [tnth one d] ++ [tnth (t_ten T) (d10 - 2)])
+        | _ => (false, (if Nat.eqb d 0 then words else words ++ [tnth one d]) ++ [tnth (t_ten T) (d10 - 2)])
         end in
       let one := t_one T in
       let '(zero, words, i) :=
